@@ -3,6 +3,8 @@
 import json
 props=[json.loads(l) for l in open('/verif/properties.jsonl')]
 CLAIMED = {
+ 'C12': ("through Eval, Compile + Callable, Debug and the raw-environment API: 25 programs that fail syntactically, statically or at run time (index, key, modulo, invalid pattern) with symbolic operands report the failure through the error result and never panic; 12 host values (nil, typed nil, nil pointers inside, unsupported kinds, mixed interface slices, non-string map keys, scalars) x 4 programs and 46 malformed / adversarial source strings never panic",
+         "the timing clauses (polynomial compile time, prompt evaluation) are NOT claimed: wall-clock is not a solver property; source strings are a fixed adversarial list, not symbolic bytes (the lexer's regular expressions are native)"),
  'C19': ("closure.DebugCompile against closure.Compile on 24 single-line sources (ASCII and non-ASCII identifiers and strings, lazy branches, failing sub-terms, redundant spaces) x 72 value combinations: same value or failure; the record (read through a verif-tagged accessor) is exactly the reference walker's sequence of (value, column) for the variable / call / member / subscript terms actually evaluated; Render never fails, keeps the source as first line and shows every recorded value",
          "values are concrete (selector-chosen), so this check is path exploration of the real code without solver-decided scalars; multi-line renderings are not exercised"),
  'C20': ("every AND/OR/NOT criteria tree to depth 2 over three leaf kinds, and every condition kind (= <> > >= < <=, IN, BETWEEN, LIKE, IS NULL, column-vs-column, times) with hostile string operands (quotes, backslashes, control bytes, non-ASCII, invalid UTF-8, SQL comment text), boundary numbers and bound/unbound names in three contexts: the generated text, read back by an independent reader with standard SQL precedence and backslash-escaped literals, is the criteria tree (up to AND/AND, OR/OR flattening); each string operand is exactly one literal",
